@@ -263,4 +263,10 @@ def deepDiff (cfg : DCfg) (al : Align) (hashOf : PyVal → String) (t1 t2 : PyVa
   let r := { r with tree := keepReported cfg r.tree }
   if cfg.reportRepetition then r else { r with tree := mutualAddRemoves r.tree }
 
+/-- the result as it stands when `deep_distance` is computed in `DeepDiff.__init__`: before `_get_view_results` folds
+added / removed pairs of one path into `values_changed` -/
+def diffUnmerged (cfg : DCfg) (al : Align) (hashOf : PyVal → String) (t1 t2 : PyVal) : Result :=
+  let r := if skipSteps cfg [] then {} else diffV cfg al hashOf [] t1 t2
+  { r with tree := keepReported cfg r.tree }
+
 end Diff
